@@ -67,6 +67,8 @@ Enabled(prod) ==
       [] Fam = "md"    -> prod \in {"Select", "Where", "SelectMany", "Count", "Cmp", "Add", "MD", "First"}
       [] Fam = "comp"  -> prod \in {"Comp", "Select", "Count", "Sum", "Cmp", "Add", "First"}
       [] Fam = "helper" -> prod \in {"Select", "Where", "SelectMany", "Helper", "Add", "Cmp", "Count", "First"}
+      [] Fam = "e2e"   -> prod \in {"Select", "Where", "SelectMany", "First", "Count", "Add", "Mul", "Cmp", "If",
+                                    "TupProj", "MethArgs", "MethKw", "Sum", "And"}
       [] Fam = "all"   -> prod \notin {"OtherMeth", "KwOp", "AggOdd", "MD", "OutIdx", "AbsentKey", "Comp", "Helper"}
       [] OTHER -> FALSE
 
@@ -75,8 +77,13 @@ Visible(ns, i) == \A j \in (i + 1)..Len(ns) : ns[j] # ns[i]
 VarsOf(s, ns, ss) == {Name(ns[i]) : i \in {j \in 1..Len(ns) : ss[j].s = s /\ Visible(ns, j)}}
 
 (* v.f for every visible object variable v with a field f of sort s *)
+(* a field reference: attribute v.f, or (typed families) the method call v.f() -- Jet.eta has a   *)
+(* required parameter, so it is always written with an argument there                              *)
+MethodLeaves == Fam \in {"e2e"}
+FieldRef(v, cls, f) == IF ~MethodLeaves THEN Attr(v, f)
+                       ELSE IF cls = "Jet" /\ f = "eta" THEN Meth(v, f, <<IntC(1)>>) ELSE Meth(v, f, <<>>)
 FieldRefs(s, ns, ss) ==
-    UNION {{Attr(Name(ns[i]), g[2]) : g \in {h \in Fields : h[1] = ss[i].s /\ h[3] = s}} :
+    UNION {{FieldRef(Name(ns[i]), g[1], g[2]) : g \in {h \in Fields : h[1] = ss[i].s /\ h[3] = s}} :
               i \in {j \in 1..Len(ns) : Visible(ns, j)}}
 
 (* constant projections of visible packaged variables that have sort s *)
@@ -117,8 +124,10 @@ Split3(r) == {<<q[1], q[2], r - q[1] - q[2]>> : q \in {w \in (0..r) \X (0..r) : 
 Push(ns, x) == Append(ns, x)
 
 (* function form Op(src, args) and, in the method-form families, src.Op(args) *)
-MethForm == Fam \in {"meth"}
-Forms(op, src, rest) == {Fn(op, <<src>> \o rest)} \cup (IF MethForm THEN {Meth(src, op, rest)} ELSE {})
+MethForm == Fam \in {"meth", "e2e"}
+FnForm == Fam # "e2e"          \* the end-to-end family writes operators the way users do: seq.Op(...)
+Forms(op, src, rest) == (IF FnForm THEN {Fn(op, <<src>> \o rest)} ELSE {})
+                          \cup (IF MethForm THEN {Meth(src, op, rest)} ELSE {})
 
 (* lambda-taking operator:  Op(hole srcSort, lambda x: hole bodySort) *)
 OpProd(op, srcSort, elemSort, bodySort, r, ns, ss) ==
@@ -331,6 +340,7 @@ Fill(t) ==
 RootSorts == CASE Fam \in {"idx", "chain", "chain1", "chainx"} -> {"SeqInt"}
                [] Fam \in {"agg"} -> {"SeqInt", "Int"}
                [] Fam = "helper" -> {"SeqInt", "SeqJet"}
+               [] Fam = "e2e" -> {"SeqInt", "SeqJet", "SeqEvt"}
                [] Fam \in {"meth", "md", "md1"} -> {"SeqInt", "SeqJet", "SeqEvt", "SeqTrk", "Int"}
                [] OTHER -> {"SeqInt", "SeqJet", "Int"}
 Roots == {Hole(s, Budget, <<>>, <<>>) : s \in RootSorts}
